@@ -508,6 +508,173 @@ Section Pcs.
   Qed.
 
   (* ------------------------------------------------------------------ *)
+  (* the selected TCB level is the FIRST matching one of the signed TCB info *)
+
+  Lemma find_first {A} (f : A -> bool) l x :
+    find f l = Some x ->
+    exists pre post, l = pre ++ x :: post /\ f x = true /\ forall y, In y pre -> f y = false.
+  Proof.
+    induction l as [|a l IH]; cbn [find]; [discriminate|].
+    destruct (f a) eqn:E.
+    - intros H. injection H as <-. exists [], l. repeat split; auto. intros y [].
+    - intros H. destruct (IH H) as (pre & post & -> & Hx & Hp).
+      exists (a :: pre), post. repeat split; auto.
+      intros y [<-|Hy]; auto.
+  Qed.
+
+  Lemma find_enclave_level_first isvsvn l x :
+    find_enclave_level isvsvn l = Some x ->
+    exists pre post, l = pre ++ x :: post /\ el_isvsvn x <= isvsvn /\
+                     forall y, In y pre -> isvsvn < el_isvsvn y.
+  Proof.
+    induction l as [|a l IH]; cbn [find_enclave_level]; [discriminate|].
+    destruct (el_isvsvn a <=? isvsvn) eqn:E.
+    - intros H. injection H as <-. exists [], l. apply N.leb_le in E. repeat split; auto. intros y [].
+    - intros H. destruct (IH H) as (pre & post & -> & Hx & Hp).
+      exists (a :: pre), post. repeat split; auto.
+      intros y [<-|Hy]; auto. apply N.leb_gt in E. exact E.
+  Qed.
+
+  Definition first_matching_level (ti : TcbInfo) (sgxsvn : list Z) (tdxsvn : option bytes) (pcesvn : N) (lv : TcbLevel) : Prop :=
+    exists pre post, ti_levels ti = pre ++ lv :: post /\
+      level_matches sgxsvn tdxsvn pcesvn lv = true /\
+      (forall l, In l pre -> level_matches sgxsvn tdxsvn pcesvn l = false).
+
+  (* for a TDX TCB info with TEE TCB SVN[1] >= 1 the module identity "TDX_<SVN[1]>" must exist and its first level
+     with isvsvn <= SVN[0] must be UpToDate (tcb.go:351-394) *)
+  Definition tdx_module_ok (ti : TcbInfo) (tdxsvn : option bytes) : Prop :=
+    ti_id ti = s_TDX ->
+    exists t, tdxsvn = Some t /\
+      (1 <= nth 1 t 0 ->
+       exists m ml pre post, find_module (tdx_module_id (nth 1 t 0)) (ti_modids ti) = Some m /\
+         tm_levels m = pre ++ ml :: post /\ el_isvsvn ml <= nth 0 t 0 /\
+         (forall y, In y pre -> nth 0 t 0 < el_isvsvn y) /\ el_status ml = ST_UpToDate).
+
+  Lemma get_tcb_level_spec ti sgxsvn tdxsvn pcesvn lv :
+    get_tcb_level ti sgxsvn tdxsvn pcesvn = Ok lv ->
+    first_matching_level ti sgxsvn tdxsvn pcesvn lv /\ tl_status lv <> ST_MISSING /\ tdx_module_ok ti tdxsvn.
+  Proof.
+    unfold get_tcb_level. intros H.
+    destruct (find (level_matches sgxsvn tdxsvn pcesvn) (ti_levels ti)) as [l|] eqn:EF; [|discriminate H].
+    destruct (negb (tl_status l =? ST_MISSING)) eqn:EM; cbn [check bind] in H; [|discriminate H].
+    apply negb_true_iff in EM. apply N.eqb_neq in EM.
+    assert (HF : first_matching_level ti sgxsvn tdxsvn pcesvn l).
+    { destruct (find_first _ _ _ EF) as (pre & post & A & B & C). exists pre, post. auto. }
+    destruct (bytes_eqb (ti_id ti) s_TDX) eqn:EI.
+    - destruct tdxsvn as [t|]; [|discriminate H].
+      destruct (1 <=? nth 1 t 0) eqn:EV.
+      + destruct (find_module (tdx_module_id (nth 1 t 0)) (ti_modids ti)) as [m|] eqn:EMo; [|discriminate H].
+        destruct (find_enclave_level (nth 0 t 0) (tm_levels m)) as [ml|] eqn:EL; [|discriminate H].
+        destruct (el_status ml =? ST_UpToDate) eqn:ES; cbn [check bind] in H; [|discriminate H].
+        injection H as <-. repeat split; auto.
+        intros _. exists t. split; [reflexivity|]. intros _.
+        destruct (find_enclave_level_first _ _ _ EL) as (pre & post & A & B & C).
+        exists m, ml, pre, post. apply N.eqb_eq in ES. auto.
+      + injection H as <-. repeat split; auto. intros _. exists t. split; [reflexivity|].
+        intros Hge. apply N.leb_gt in EV. lia.
+    - injection H as <-. repeat split; auto. intros Hid. rewrite Hid, bytes_eqb_refl_true in EI. discriminate.
+  Qed.
+
+  (* The statement asked for in one piece: what acceptance of a raw quote + collateral establishes,
+     clause by clause, exactly as the code enforces it. *)
+  Record ChainAndTcb (pol : Policy) (ts : Z) (q : Quote) (c : Collateral) (out : Output) : Prop := {
+    (* 1. PCK chain: three certificates, path-valid at ts up to the pinned root (abstract X.509) *)
+    ct_pck_chain : q_cert_type q = 5 /\ pck_count P (q_cert_data q) = 3 /\ pck_chain_ok P ts (q_cert_data q) = true;
+    ct_links : exists pck tpk ti qi tissue qissue lv,
+      pck_info P (q_cert_data q) = PckOk pck /\
+      (* 2. QE report signed by the PCK leaf key *)
+      ecdsa_ok P (pk_key pck) (sha256 P (q_qe_report q)) (q_qe_sig q) = true /\
+      (* 3. QE report data = SHA-256(attestation key || authentication data) || 0^32 *)
+      sgx_report_data (q_qe_report q) = sha256 P (q_attkey q ++ q_auth q) ++ zeros 32 /\
+      (* 4. header || report body signed by that attestation key *)
+      ecdsa_ok P (q_attkey q) (sha256 P (q_header q ++ q_body q)) (q_sig q) = true /\
+      (* 5. TCB signing chain path-valid at ts; TCB info and QE identity bodies signed by its key *)
+      tcb_certs P (c_certs c) = Some (Some tpk) /\ tcb_chain_ok P ts (c_certs c) = true /\
+      tcb_sig_ok P tpk (c_tcbinfo c) (c_tcbinfo_sig c) = true /\ tcb_sig_ok P tpk (c_qeid c) (c_qeid_sig c) = true /\
+      parse_tcbinfo P (c_tcbinfo c) = Some ti /\ parse_qeid P (c_qeid c) = Some qi /\
+      (* 6. the platform TCB level used is the first level of the signed TCB info not above the platform's SVNs *)
+      first_matching_level ti (pk_compsvn pck) (tdx_svn_of q) (pk_pcesvn pck) lv /\
+      tdx_module_ok ti (tdx_svn_of q) /\
+      (* 7. its status is admitted: UpToDate / SWHardeningNeeded, or (lax switch) OutOfDate / ConfigurationNeeded / both *)
+      status_allowed (e_lax env) (tl_status lv) = true /\
+      (* 8. evaluation data numbers of both bodies >= policy minimum *)
+      p_min_eval pol <= ti_eval ti /\ p_min_eval pol <= qi_eval qi /\
+      (* 9. not expired / not from the future at ts -- by the code's rule issueDate <= ts <= issueDate + period days *)
+      ti_issue ti = Some tissue /\ in_window (p_period pol) tissue ts /\
+      qi_issue qi = Some qissue /\ in_window (p_period pol) qissue ts /\
+      (* 10. the platform binding and the QE identity *)
+      hexdecode (ti_fmspc ti) = Some (pk_fmspc pck) /\ qe_identity_matches qi (q_qe_report q) /\
+      (* 11. what is returned *)
+      out = output_of P (q_tee q) (q_body q)
+  }.
+
+  Lemma slice_length off len (b : bytes) : (off + len <= length b)%nat -> length (slice off len b) = len.
+  Proof. unfold slice. intros H. rewrite firstn_length, skipn_length. lia. Qed.
+
+  Lemma slice_split_64 (r a : bytes) :
+    length r = 64%nat -> slice 0 32 r = a -> slice 32 32 r = zeros 32 -> r = a ++ zeros 32.
+  Proof.
+    unfold slice. change (skipn 0 r) with r. intros L A B.
+    rewrite <- (firstn_skipn 32 r) at 1. rewrite A. f_equal.
+    rewrite <- B. symmetry. apply firstn_all2. rewrite skipn_length. lia.
+  Qed.
+
+  Lemma accept_chain_and_tcb_parsed pol ts q c out :
+    length (sgx_report_data (q_qe_report q)) = 64%nat ->
+    verify_parsed P env pol ts q c = Ok out -> ChainAndTcb pol ts q c out.
+  Proof.
+    intros L H. apply accept_parsed_implies_all_checks in H.
+    destruct H as [_ _ _ _ (pck & tpk & qi & ti & qissue & tissue & f & lv & R)].
+    decompose [and] R. clear R.
+    match goal with G : get_tcb_level _ _ _ _ = Ok lv |- _ => destruct (get_tcb_level_spec _ _ _ _ _ G) as (F1 & F2 & F3) end.
+    constructor; [auto|].
+    exists pck, tpk, ti, qi, tissue, qissue, lv.
+    repeat match goal with |- _ /\ _ => split end; auto.
+    - apply slice_split_64; auto.
+    - subst f. assumption.
+  Qed.
+
+  (* the QE report inside a parsed quote is 384 bytes, hence its report data 64 *)
+  Lemma parse_qe_report_len version tee header body sig attkey d q :
+    parse_qe P version tee header body sig attkey d = inl q -> length (sgx_report_data (q_qe_report q)) = 64%nat.
+  Proof.
+    unfold parse_qe. intros H. cbv zeta in H.
+    destruct (blen d <? 384) eqn:E0; [discriminate H|].
+    assert (Hl : (384 <= length d)%nat) by (apply N.ltb_ge in E0; unfold blen in E0; lia).
+    assert (Hq : length (sgx_report_data (slice 0 384 d)) = 64%nat).
+    { unfold sgx_report_data. rewrite slice_length; [reflexivity|]. rewrite slice_length; lia. }
+    repeat match type of H with
+    | (if ?b then _ else _) = inl _ => destruct b; try discriminate H
+    end; injection H as <-; exact Hq.
+  Qed.
+
+  Lemma parse_quote_qe_report_len raw q :
+    parse_quote P raw = inl q -> length (sgx_report_data (q_qe_report q)) = 64%nat.
+  Proof.
+    unfold parse_quote. intros H. cbv zeta in H.
+    destruct (blen raw <? 436); [discriminate H|].
+    match type of H with match ?h with _ => _ end = _ => destruct h as [tee|e]; [|discriminate H] end.
+    destruct (negb (bytes_eqb (slice 12 16 raw) intel_vendor)); [discriminate H|].
+    match type of H with match ?h with _ => _ end = _ => destruct h as [bl|e]; [|discriminate H] end.
+    repeat match type of H with
+    | (if ?b then _ else _) = inl _ => destruct b; try discriminate H
+    end.
+    unfold parse_sig in H. cbv zeta in H.
+    repeat match type of H with
+    | (if ?b then _ else _) = inl _ => destruct b; try discriminate H
+    end; eapply parse_qe_report_len; exact H.
+  Qed.
+
+  Lemma accept_chain_and_tcb_l pol ts raw c out :
+    verify P env pol ts raw c = Ok out ->
+    exists q, parse_quote P raw = inl q /\ ChainAndTcb pol ts q c out.
+  Proof.
+    unfold verify. destruct (parse_quote P raw) as [q|e] eqn:E; [|discriminate].
+    intros H. exists q. split; [reflexivity|].
+    apply accept_chain_and_tcb_parsed; [|exact H]. eapply parse_quote_qe_report_len; exact E.
+  Qed.
+
+  (* ------------------------------------------------------------------ *)
   (* validity_window_interval *)
 
   Definition interval_shaped (ok : Z -> bytes -> bool) : Prop :=
@@ -622,7 +789,8 @@ Definition toy_sha (x : bytes) : bytes := firstn 32 (x ++ zeros 32).
 Definition toy_window (ts : Z) (_ : bytes) : bool := ((10 <=? ts) && (ts <=? 100000))%Z.
 Definition toy_ti (id fmspc : bytes) (next : Z) (status : N) : TcbInfo :=
   mkTI id 3 (Some 20%Z) (Some next) fmspc 13 [mkTM (tdx_module_id 1) [mkEL 0 ST_UpToDate]]
-       [mkTL (repeat 6%Z 16) 11 (repeat 1%Z 16) ST_OutOfDate; mkTL (repeat 5%Z 16) 10 [] status].
+       [mkTL (repeat 6%Z 16) 11 (repeat 1%Z 16) ST_OutOfDate; mkTL (repeat 5%Z 16) 10 [] status]
+       (repeat 48 96) (repeat 48 16) (repeat 70 16).
 Definition toy_qi (id : bytes) : QeId :=
   mkQI id 2 (Some 15%Z) (Some 40%Z) 12 (repeat 48 8) (repeat 48 8) (repeat 48 32) (repeat 48 32) (repeat 48 64) 0
        [mkEL 3 ST_Revoked; mkEL 0 ST_UpToDate].
@@ -717,4 +885,22 @@ Proof.
   do 3 eexists. exists [97; 98].
   split; [vm_compute; reflexivity|]. split; [vm_compute; reflexivity|].
   split; [reflexivity|]. split; [left; reflexivity|reflexivity].
+Qed.
+
+(* REFUTED: "accepted TDX quote -> SEAMATTRIBUTES of the TD report match tdxModule.attributes under
+   tdxModule.attributesMask of the signed TCB info" (step of Intel's TDX quote verification).  The code never reads
+   TdReport.seamAttributes nor TCBInfo.TDXModule; MRSIGNERSEAM is only compared with the *policy's* module list
+   (or required to be zero), not with the TCB info. *)
+Definition toy_tdx_raw_seam : bytes := firstn 160 toy_tdx_raw ++ [1] ++ skipn 161 toy_tdx_raw.
+Lemma tdx_seam_attributes_checked_refuted_l :
+  exists P env pol ts raw c out q ti a m,
+    verify P env pol ts raw c = Ok out /\ parse_quote P raw = inl q /\ q_tee q = TEE_TDX /\
+    parse_tcbinfo P (c_tcbinfo c) = Some ti /\
+    hexdecode (ti_seam_attrs ti) = Some a /\ hexdecode (ti_seam_mask ti) = Some m /\ m = repeat 255 8 /\
+    td_seamattributes (q_body q) <> a.
+Proof.
+  exists tdxP, toy_env, tdx_policy, 50%Z, toy_tdx_raw_seam, toy_coll. do 3 eexists. exists (zeros 8), (repeat 255 8).
+  split; [vm_compute; reflexivity|]. split; [vm_compute; reflexivity|].
+  split; [reflexivity|]. split; [reflexivity|]. split; [vm_compute; reflexivity|].
+  split; [vm_compute; reflexivity|]. split; [reflexivity|]. vm_compute. discriminate.
 Qed.
